@@ -110,6 +110,12 @@ func ClassProgram(g *G) *ClassCase {
 	if g.Chance(40, "m-self-link") {
 		ms = append(ms, method{"chain", "", "int", "if §next == nil {\n\t§next = &" + name + "{w: §w + 1}\n}\nreturn §next.w + §next.area()", true})
 	}
+	if g.Chance(30, "m-predeclared-names") {
+		// members named like predeclared identifiers: a bare `error` / `string(...)` inside the class
+		// refers to the member
+		ms = append(ms, method{"string", "n int", "string", "return fmt.Sprint(\"<\", n, \">\")", false})
+		ms = append(ms, method{"fail", "msg string", "string", "§error = msg + §error\nreturn @string(len(§error)) + §error", true})
+	}
 	cntOrW := "w"
 	if has("cnt") {
 		cntOrW = "cnt"
@@ -143,6 +149,9 @@ func ClassProgram(g *G) *ClassCase {
 	for _, m := range ms {
 		if m.name == "chain" {
 			fields = append(fields, cfield{name: "next", typ: "*" + name, kind: "selfptr"})
+		}
+		if m.name == "fail" {
+			fields = append(fields, cfield{name: "error", typ: "string", kind: "predeclared-name"})
 		}
 	}
 	var gox, gostruct, gomethods strings.Builder
@@ -220,8 +229,10 @@ func ClassProgram(g *G) *ClassCase {
 			args = fmt.Sprintf("%q, %d", fmt.Sprintf("k%d", g.Intn(3, "key")), g.Intn(9, "v"))
 		case "move":
 			args = fmt.Sprintf("%d, %d", g.Intn(3, "dx"), g.Intn(3, "dy"))
-		case "setW", "sumTo":
+		case "setW", "sumTo", "string":
 			args = fmt.Sprint(g.Intn(5, "n"))
+		case "fail":
+			args = `"e"`
 		}
 		if m.results == "" {
 			fmt.Fprintf(&use, "\t%s.%s(%s)\n", recv, m.name, args)
